@@ -372,20 +372,33 @@ MAX_SEG_GROWTH_FACTOR`, every pass turns the stream into the direction it wants 
 def runRange (passes : Array PassT) (c : Ctx) (lo hi : Nat) (fuel : Nat) : Except String (Option Ctx) :=
   runPasses passes (c.seg.numGlyphs * 64) true (c.beginRange (c.seg.numGlyphs * 64)) lo hi fuel
 
-/-- the bidi step of `Silf::runGraphite` (what is left of the bidi pass): the stream is turned into the font's direction.  Mirroring
-(`doMirror`, for fonts with a mirror attribute and requests with `gr_nobidi`) is not modelled. -/
-def bidiStep (c : Ctx) : Ctx :=
+/-- `Segment::doMirror(aMirror)`: every slot of the stream whose glyph has a mirror glyph (glyph attribute `aMirror`, read as an
+`unsigned short`) takes that glyph – unless the request carries `gr_nomirror` (bit 2 of the direction) and the glyph's attribute
+`aMirror + 1` is set -/
+def doMirror (c : Ctx) (aMirror : Nat) : Seg :=
+  (ahead c.seg (2 * c.seg.slots.size + 8) c.seg.first).foldl (fun (s : Seg) i =>
+    let gid := (s.get i).gid
+    let g := (glyphAttr c gid aMirror % 65536).toNat
+    if g ≠ 0 ∧ ((c.seg.dir / 4) % 2 = 0 ∨ glyphAttr c gid (aMirror + 1) = 0) then s.upd i fun sl => sl.setGlyph c.gadv g else s) c.seg
+
+/-- the stream is turned into the font's direction -/
+def turnStep (c : Ctx) : Ctx :=
   if c.seg.currdir != (c.dir % 2 == 1) then c.withSeg (c.seg.reverseSlots (isMark c c.seg)) else c
+
+/-- the bidi step of `Silf::runGraphite` (what is left of the bidi pass): the stream is turned into the font's direction, and for a
+font with a mirror attribute and a request with `gr_rtl | gr_nobidi` the glyphs are mirrored -/
+def bidiStep (c : Ctx) (aMirror : Nat := 0) : Ctx :=
+  if aMirror ≠ 0 ∧ (turnStep c).seg.dir % 4 = 3 then (turnStep c).withSeg (doMirror (turnStep c) aMirror) else turnStep c
 
 /-- one call of `Silf::runGraphite(seg, lo, hi, dobidi)` on a font whose bidi step sits in front of pass `bPass` (`0xFF`: none):
 the step belongs to this call when `lo < bPass ≤ hi`, or when `bPass = lo` and the caller asks for it; a call that contains it runs
 its passes without turning the stream (`lbidi != 0xFF`), the step itself turns it once.  Every pass of the range runs exactly once. -/
-def runPhase (passes : Array PassT) (bPass : Nat) (c : Ctx) (lo hi : Nat) (dobidi : Bool) (fuel : Nat) : Except String (Option Ctx) :=
+def runPhase (passes : Array PassT) (bPass : Nat) (c : Ctx) (lo hi : Nat) (dobidi : Bool) (fuel : Nat) (aMirror : Nat := 0) : Except String (Option Ctx) :=
   let limit : Int := c.seg.numGlyphs * 64
   let c := c.beginRange limit
   if bPass ≠ 0xFF ∧ ((lo < bPass ∧ bPass ≤ hi) ∨ (dobidi = true ∧ lo = bPass)) then
     match runPasses passes limit false c lo bPass fuel with
-    | .ok (some c1) => runPasses passes limit false (bidiStep c1) bPass hi fuel
+    | .ok (some c1) => runPasses passes limit false (bidiStep c1 aMirror) bPass hi fuel
     | o => o
   else runPasses passes limit true c lo hi fuel
 
@@ -398,6 +411,7 @@ structure Font where
   cmap : Nat → Nat
   silfDir : Nat := 0               -- `Silf::m_dir` (the direction byte of the table minus one): 1 = a right-to-left font
   bPass : Nat := 0xFF              -- `Silf::m_bPass`: the bidi step sits in front of this pass (0xFF: the font has none)
+  aMirror : Nat := 0               -- `Silf::m_aMirror`: the glyph attribute that holds a glyph's mirror glyph (0: the font has none)
   aBidi : Nat := 3                 -- the glyph attribute holding the bidi class
 
 /-- `Segment::read_text`: one slot per character, appended in order -/
@@ -420,19 +434,25 @@ def reassoc (seg : Seg) (n : Nat) : Option (Seg × List Assoc.CI) :=
   let seg' := stream.zipIdx.foldl (fun s (x : Nat × Nat) => s.upd x.1 fun sl => sl.setIndex x.2) seg'
   some (seg', r.2.1)
 
-/-- the whole pipeline up to `Segment::finalise`: text → slots → substitution passes → `associateChars` → positioning passes;
-`dir` is the direction argument of `gr_make_seg` (bit 0: right to left), the font's own direction is `font.silfDir`; each pass
-finds the stream in the direction it wants (`runPassDir`).  No bidi pass, no mirroring. -/
+/-- `Face::runGraphite` before the first pass: a request with `gr_rtl | gr_nobidi` on a font that has a mirror attribute but no bidi
+step is mirrored here -/
+def startMirror (font : Font) (c : Ctx) : Ctx :=
+  if c.seg.dir % 4 = 3 ∧ font.bPass = 0xFF ∧ font.aMirror ≠ 0 then c.withSeg (doMirror c font.aMirror) else c
+
+/-- the whole pipeline up to `Segment::finalise`: text → slots → (mirroring) → substitution passes → `associateChars` → positioning
+passes, with the bidi step where the font puts it; `dir` is the direction argument of `gr_make_seg` (bit 0: right to left, bit 1:
+`gr_nobidi`, bit 2: `gr_nomirror`), the font's own direction is `font.silfDir`; each pass finds the stream in the direction it wants
+(`runPassDir`) unless the call contains the bidi step (`runPhase`). -/
 def shape (font : Font) (text : List Nat) (fuel : Nat) (dir : Nat := 0) : Except String (Option (Ctx × List Assoc.CI)) :=
   if text.length = 0 then .ok (some ({ seg := {}, smap := #[], size := 0, context := 0, maxSize := 0, map := 0, is := none }, [])) else
-  match runPhase font.passes font.bPass (initCtx font text dir) 0 font.ipos true fuel with
+  match runPhase font.passes font.bPass (startMirror font (initCtx font text dir)) 0 font.ipos true fuel font.aMirror with
   | .error w => .error w
   | .ok none => .ok none
   | .ok (some c) =>
     match reassoc c.seg text.length with
     | none => .error "associateChars: char-info access out of range"
     | some (seg', ci) =>
-      match runPhase font.passes font.bPass (c.withSeg seg') font.ipos font.passes.size false fuel with
+      match runPhase font.passes font.bPass (c.withSeg seg') font.ipos font.passes.size false fuel font.aMirror with
       | .error w => .error w
       | .ok none => .ok none
       | .ok (some c) => .ok (some (c, ci))
